@@ -16,6 +16,41 @@ Local Open Scope N_scope.
 
 Definition str (s : string) : bytes := map N_of_ascii (list_ascii_of_string s).
 
+(* field names of the DTO structs (the `cbor:"..."` tags; Go field names where a DTO has no
+   tag), as UTF-8 byte strings computed at compile time so that no Coq [string] is extracted *)
+Definition k_Matrix : bytes := Eval vm_compute in str "Matrix".
+Definition k_RowsToHolders : bytes := Eval vm_compute in str "RowsToHolders".
+Definition k_attr : bytes := Eval vm_compute in str "attr".
+Definition k_children : bytes := Eval vm_compute in str "children".
+Definition k_cols : bytes := Eval vm_compute in str "cols".
+Definition k_compressedBytes : bytes := Eval vm_compute in str "compressedBytes".
+Definition k_data : bytes := Eval vm_compute in str "data".
+Definition k_fieldBytes : bytes := Eval vm_compute in str "fieldBytes".
+Definition k_id : bytes := Eval vm_compute in str "id".
+Definition k_int : bytes := Eval vm_compute in str "int".
+Definition k_intBytes : bytes := Eval vm_compute in str "intBytes".
+Definition k_kind : bytes := Eval vm_compute in str "kind".
+Definition k_levels : bytes := Eval vm_compute in str "levels".
+Definition k_maximal_unqualified_sets : bytes := Eval vm_compute in str "maximal_unqualified_sets".
+Definition k_msp : bytes := Eval vm_compute in str "msp".
+Definition k_nat : bytes := Eval vm_compute in str "nat".
+Definition k_natBytes : bytes := Eval vm_compute in str "natBytes".
+Definition k_natPlus : bytes := Eval vm_compute in str "natPlus".
+Definition k_parties : bytes := Eval vm_compute in str "parties".
+Definition k_publicMaterial : bytes := Eval vm_compute in str "publicMaterial".
+Definition k_r : bytes := Eval vm_compute in str "r".
+Definition k_root : bytes := Eval vm_compute in str "root".
+Definition k_rows : bytes := Eval vm_compute in str "rows".
+Definition k_s : bytes := Eval vm_compute in str "s".
+Definition k_share : bytes := Eval vm_compute in str "share".
+Definition k_shareholders : bytes := Eval vm_compute in str "shareholders".
+Definition k_size : bytes := Eval vm_compute in str "size".
+Definition k_threshold : bytes := Eval vm_compute in str "threshold".
+Definition k_v : bytes := Eval vm_compute in str "v".
+Definition k_value : bytes := Eval vm_compute in str "value".
+Definition k_verificationVector : bytes := Eval vm_compute in str "verificationVector".
+Definition k_verification_vector : bytes := Eval vm_compute in str "verification_vector".
+
 (* ---------------------------------------------------------------- schemas *)
 
 Inductive schema : Type :=
@@ -37,10 +72,10 @@ Definition SId : schema := SUInt u64max.
 
 (* boolexpr nodeDTO: kind uint8; attr, threshold, children omitempty *)
 Definition node_schema : schema :=
-  SStruct [ (str "kind", (false, SUInt 255));
-            (str "attr", (true, SId));
-            (str "threshold", (true, SInt));
-            (str "children", (true, SList SNode)) ].
+  SStruct [ (k_kind, (false, SUInt 255));
+            (k_attr, (true, SId));
+            (k_threshold, (true, SInt));
+            (k_children, (true, SList SNode)) ].
 
 Inductive cres : Type := COk | CUnknown | CShape.
 
@@ -121,14 +156,14 @@ Fixpoint assoc (ps : list (item * item)) (nm : bytes) : option item :=
                      end
   end.
 
-Definition fld (nm : string) (x : item) : item :=
+Definition fld (nm : bytes) (x : item) : item :=
   match x with
-  | Map ps => match assoc ps (str nm) with Some v => v | None => Simple 22 end
+  | Map ps => match assoc ps nm with Some v => v | None => Simple 22 end
   | _ => Simple 22
   end.
 
-Definition has_fld (nm : string) (x : item) : bool :=
-  match x with Map ps => has_key ps (str nm) | _ => false end.
+Definition has_fld (nm : bytes) (x : item) : bool :=
+  match x with Map ps => has_key ps nm | _ => false end.
 
 Definition nat_of (x : item) : N := match x with UInt n => n | _ => 0 end.
 Definition int_of (x : item) : Z :=
@@ -160,7 +195,7 @@ Definition first_bad (rs : list rule) : N :=
 Record curve := { c_slen : N; c_plen : N; c_q : N }.
 
 (* scalar DTO {fieldBytes: bstr}: fixed length big-endian, canonical (< q) *)
-Definition scalar_bytes (x : item) : bytes := bytes_of (fld "fieldBytes" x).
+Definition scalar_bytes (x : item) : bytes := bytes_of (fld k_fieldBytes x).
 Definition scalar_rules (c : curve) (x : item) : list rule :=
   [ (30, len (scalar_bytes x) =? c_slen c);
     (105, be_value (scalar_bytes x) <? c_q c) ].
@@ -168,18 +203,18 @@ Definition scalar_is_zero (x : item) : bool := forallb (fun b => b =? 0) (scalar
 
 (* point DTO {compressedBytes: bstr}: fixed length (curve membership is C13's subject) *)
 Definition point_rules (c : curve) (x : item) : list rule :=
-  [ (31, len (bytes_of (fld "compressedBytes" x)) =? c_plen c) ].
+  [ (31, len (bytes_of (fld k_compressedBytes x)) =? c_plen c) ].
 
 (* threshold.NewThresholdAccessStructure *)
 Definition threshold_rules (x : item) : list rule :=
   let d := untag x in
-  let t := nat_of (fld "threshold" d) in
-  let ids := keys_of (fld "shareholders" d) in
+  let t := nat_of (fld k_threshold d) in
+  let ids := keys_of (fld k_shareholders d) in
   [ (3, negb (memN 0 ids)); (1, 2 <=? t); (2, t <=? len ids) ].
 
 (* unanimity.NewUnanimityAccessStructure *)
 Definition unanimity_rules (x : item) : list rule :=
-  let ids := keys_of (fld "shareholders" (untag x)) in
+  let ids := keys_of (fld k_shareholders (untag x)) in
   [ (4, 2 <=? len ids); (3, negb (memN 0 ids)) ].
 
 (* cnf.NewCNFAccessStructure / normaliseCNF *)
@@ -190,22 +225,22 @@ Fixpoint antichain_from (pre : list (list N)) (l : list (list N)) : bool :=
   end.
 Definition cnf_rules (x : item) : list rule :=
   let d := untag x in
-  let sets := map keys_of (arr_of (fld "maximal_unqualified_sets" d)) in
+  let sets := map keys_of (arr_of (fld k_maximal_unqualified_sets d)) in
   let univ := dedupN (List.concat sets) in
   [ (5, negb (len sets =? 0));
     (6, forallb (fun s => negb (len s =? 0)) sets);
     (3, forallb (fun s => negb (memN 0 s)) sets);
     (7, 2 <=? len univ);
     (101, antichain_from [] sets);
-    (102, seteqN (keys_of (fld "shareholders" d)) univ) ].
+    (102, seteqN (keys_of (fld k_shareholders d)) univ) ].
 
 (* hierarchical: ThresholdLevel.UnmarshalCBOR + NewHierarchicalConjunctiveThresholdAccessStructure *)
 Fixpoint hier_levels (cur : Z) (seen : list N) (ls : list item) : list rule :=
   match ls with
   | [] => []
   | l :: ls' =>
-      let t := int_of (fld "threshold" l) in
-      let ps := ids_of (fld "parties" l) in
+      let t := int_of (fld k_threshold l) in
+      let ps := ids_of (fld k_parties l) in
       let seen' := dedupN (seen ++ ps) in
       [ (9, (0 <? t)%Z && (cur <? t)%Z);
         (10, negb (len ps =? 0));
@@ -215,22 +250,22 @@ Fixpoint hier_levels (cur : Z) (seen : list N) (ls : list item) : list rule :=
         (103, nodupN ps) ] ++ hier_levels t seen' ls'
   end.
 Definition hierarchical_rules (x : item) : list rule :=
-  let ls := arr_of (fld "levels" (untag x)) in
+  let ls := arr_of (fld k_levels (untag x)) in
   (8, negb (len ls =? 0)) :: hier_levels 0 [] ls.
 
 (* boolexpr: Node.UnmarshalCBOR + checkTree + the shareholder/leaf cross-check *)
-Definition node_kind (n : item) : N := nat_of (fld "kind" n).
+Definition node_kind (n : item) : N := nat_of (fld k_kind n).
 Definition attr_children (n : item) : list N :=
-  map (fun c => nat_of (fld "attr" c)) (filter (fun c => node_kind c =? 2) (arr_of (fld "children" n))).
+  map (fun c => nat_of (fld k_attr c)) (filter (fun c => node_kind c =? 2) (arr_of (fld k_children n))).
 Fixpoint node_rules (fuel : nat) (n : item) : list rule :=
   match fuel with
   | O => [ (13, false) ]
   | S f =>
       let k := node_kind n in
-      if k =? 2 then [ (15, negb (nat_of (fld "attr" n) =? 0)) ]
+      if k =? 2 then [ (15, negb (nat_of (fld k_attr n) =? 0)) ]
       else if k =? 1 then
-        let t := int_of (fld "threshold" n) in
-        let cs := arr_of (fld "children" n) in
+        let t := int_of (fld k_threshold n) in
+        let cs := arr_of (fld k_children n) in
         [ (14, (1 <=? t)%Z && (t <=? lenZ cs)%Z && negb (len cs =? 0));
           (16, nodupN (attr_children n)) ] ++ flat_map (node_rules f) cs
       else [ (13, false) ]
@@ -240,27 +275,27 @@ Fixpoint node_leaves (fuel : nat) (n : item) : list N :=
   | O => []
   | S f =>
       let k := node_kind n in
-      if k =? 2 then [ nat_of (fld "attr" n) ]
-      else if k =? 1 then flat_map (node_leaves f) (arr_of (fld "children" n))
+      if k =? 2 then [ nat_of (fld k_attr n) ]
+      else if k =? 1 then flat_map (node_leaves f) (arr_of (fld k_children n))
       else []
   end.
 Definition boolexpr_rules (x : item) : list rule :=
   let d := untag x in
-  let root := fld "root" d in
-  let sh := fld "shareholders" d in
+  let root := fld k_root d in
+  let sh := fld k_shareholders d in
   node_rules 64 root ++
   [ (17, seteqN (keys_of sh) (node_leaves 64 root)
          && forallb (fun kv : item * item => match snd kv with Simple 21 => true | _ => false end) (pairs_of sh)) ].
 
 (* mat.Matrix / ModuleValuedMatrix {rows, cols, data}; SquareMatrix {size, data} *)
 Definition matrix_rules (elem : item -> list rule) (x : item) : list rule :=
-  let r := int_of (fld "rows" x) in
-  let c := int_of (fld "cols" x) in
-  let d := arr_of (fld "data" x) in
+  let r := int_of (fld k_rows x) in
+  let c := int_of (fld k_cols x) in
+  let d := arr_of (fld k_data x) in
   [ (18, (0 <? r)%Z && (0 <? c)%Z); (19, (lenZ d =? r * c)%Z) ] ++ flat_map elem d.
 Definition sqmatrix_rules (elem : item -> list rule) (x : item) : list rule :=
-  let n := int_of (fld "size" x) in
-  let d := arr_of (fld "data" x) in
+  let n := int_of (fld k_size x) in
+  let d := arr_of (fld k_data x) in
   [ (18, (0 <? n)%Z); (19, (lenZ d =? n * n)%Z) ] ++ flat_map elem d.
 
 (* msp.NewMSP: labels total on 0..rows-1, nothing else, no holder 0 *)
@@ -268,47 +303,47 @@ Definition label_keys_ok (rows : Z) (ps : list (item * item)) : bool :=
   forallb (fun kv : item * item => match fst kv with UInt n => (Z.of_N n <? rows)%Z | _ => false end) ps
   && (lenZ ps =? rows)%Z.
 Definition msp_rules (c : curve) (x : item) : list rule :=
-  let m := fld "Matrix" x in
-  let lab := pairs_of (fld "RowsToHolders" x) in
+  let m := fld k_Matrix x in
+  let lab := pairs_of (fld k_RowsToHolders x) in
   matrix_rules (scalar_rules c) m ++
-  [ (20, label_keys_ok (int_of (fld "rows" m)) lab);
+  [ (20, label_keys_ok (int_of (fld k_rows m)) lab);
     (21, forallb (fun kv : item * item => negb (nat_of (snd kv) =? 0)) lab) ].
 Definition msp_holders (x : item) : list N :=
-  map (fun kv : item * item => nat_of (snd kv)) (pairs_of (fld "RowsToHolders" x)).
+  map (fun kv : item * item => nat_of (snd kv)) (pairs_of (fld k_RowsToHolders x)).
 
 (* kw.NewShare / feldman.NewLiftedShare {id, value} *)
 Definition share_rules (elem : item -> list rule) (x : item) : list rule :=
-  let v := arr_of (fld "value" x) in
-  [ (22, negb (nat_of (fld "id" x) =? 0)); (23, negb (len v =? 0)) ] ++ flat_map elem v.
+  let v := arr_of (fld k_value x) in
+  [ (22, negb (nat_of (fld k_id x) =? 0)); (23, negb (len v =? 0)) ] ++ flat_map elem v.
 
 (* feldman.NewVerificationVector: a column vector of points *)
 Definition vv_rules (c : curve) (x : item) : list rule :=
-  let m := fld "verification_vector" x in
-  matrix_rules (point_rules c) m ++ [ (24, (int_of (fld "cols" m) =? 1)%Z) ].
+  let m := fld k_verification_vector x in
+  matrix_rules (point_rules c) m ++ [ (24, (int_of (fld k_cols m) =? 1)%Z) ].
 
 (* mpc.NewBasePublicMaterial / mpc.NewBaseShard *)
 Definition basepublic_rules (c : curve) (x : item) : list rule :=
-  let m := fld "msp" x in
-  let v := fld "verificationVector" x in
+  let m := fld k_msp x in
+  let v := fld k_verificationVector x in
   msp_rules c m ++ vv_rules c v ++
-  [ (25, (int_of (fld "rows" (fld "verification_vector" v)) =? int_of (fld "cols" (fld "Matrix" m)))%Z) ].
+  [ (25, (int_of (fld k_rows (fld k_verification_vector v)) =? int_of (fld k_cols (fld k_Matrix m)))%Z) ].
 Definition baseshard_rules (c : curve) (sharematch : bool) (x : item) : list rule :=
-  let sh := fld "share" x in
-  let pm := fld "publicMaterial" x in
+  let sh := fld k_share x in
+  let pm := fld k_publicMaterial x in
   basepublic_rules c pm ++ share_rules (scalar_rules c) sh ++
-  [ (26, memN (nat_of (fld "id" sh)) (msp_holders (fld "msp" pm)));
+  [ (26, memN (nat_of (fld k_id sh)) (msp_holders (fld k_msp pm)));
     (27, sharematch) ].
 
 (* ecdsa.NewSignature: r, s non-zero; v absent (null) or 0..3 *)
 Definition ecdsa_rules (c : curve) (x : item) : list rule :=
-  let v := fld "v" x in
-  scalar_rules c (fld "r" x) ++ scalar_rules c (fld "s" x) ++
-  [ (28, negb (scalar_is_zero (fld "r" x)) && negb (scalar_is_zero (fld "s" x)));
+  let v := fld k_v x in
+  scalar_rules c (fld k_r x) ++ scalar_rules c (fld k_s x) ++
+  [ (28, negb (scalar_is_zero (fld k_r x)) && negb (scalar_is_zero (fld k_s x)));
     (29, is_null v || ((0 <=? int_of v)%Z && (int_of v <=? 3)%Z)) ].
 
 (* num.NatPlus: non-zero *)
 Definition natplus_rules (x : item) : list rule :=
-  [ (32, existsb (fun b => negb (b =? 0)) (bytes_of (fld "natBytes" (fld "natPlus" x)))) ].
+  [ (32, existsb (fun b => negb (b =? 0)) (bytes_of (fld k_natBytes (fld k_natPlus x)))) ].
 
 (* ---------------------------------------------------------------- the typed layer *)
 
@@ -322,44 +357,44 @@ Inductive ty : Type :=
 | TGeneric.
 
 Definition s_idset : schema := SMapOf SId SBool.
-Definition s_scalar : schema := SStruct [ (str "fieldBytes", (false, SBytes)) ].
-Definition s_point : schema := SStruct [ (str "compressedBytes", (false, SBytes)) ].
+Definition s_scalar : schema := SStruct [ (k_fieldBytes, (false, SBytes)) ].
+Definition s_point : schema := SStruct [ (k_compressedBytes, (false, SBytes)) ].
 Definition s_matrix (e : schema) : schema :=
-  SStruct [ (str "rows", (false, SInt)); (str "cols", (false, SInt)); (str "data", (false, SList e)) ].
+  SStruct [ (k_rows, (false, SInt)); (k_cols, (false, SInt)); (k_data, (false, SList e)) ].
 Definition s_sqmatrix (e : schema) : schema :=
-  SStruct [ (str "size", (false, SInt)); (str "data", (false, SList e)) ].
+  SStruct [ (k_size, (false, SInt)); (k_data, (false, SList e)) ].
 Definition s_msp : schema :=
-  SStruct [ (str "Matrix", (false, s_matrix s_scalar)); (str "RowsToHolders", (false, SMapOf SInt SId)) ].
+  SStruct [ (k_Matrix, (false, s_matrix s_scalar)); (k_RowsToHolders, (false, SMapOf SInt SId)) ].
 Definition s_share (e : schema) : schema :=
-  SStruct [ (str "id", (false, SId)); (str "value", (false, SList e)) ].
-Definition s_vv : schema := SStruct [ (str "verification_vector", (false, s_matrix s_point)) ].
+  SStruct [ (k_id, (false, SId)); (k_value, (false, SList e)) ].
+Definition s_vv : schema := SStruct [ (k_verification_vector, (false, s_matrix s_point)) ].
 Definition s_basepublic : schema :=
-  SStruct [ (str "msp", (false, s_msp)); (str "verificationVector", (false, s_vv)) ].
-Definition s_natbytes (nm : string) : schema := SStruct [ (str nm, (false, SBytes)) ].
+  SStruct [ (k_msp, (false, s_msp)); (k_verificationVector, (false, s_vv)) ].
+Definition s_natbytes (nm : bytes) : schema := SStruct [ (nm, (false, SBytes)) ].
 
 Definition schema_of (t : ty) : schema :=
   match t with
-  | TThreshold => STagged 5053 (SStruct [ (str "threshold", (false, SId)); (str "shareholders", (false, s_idset)) ])
-  | TUnanimity => STagged 5054 (SStruct [ (str "shareholders", (false, s_idset)) ])
-  | TCnf => STagged 5051 (SStruct [ (str "shareholders", (false, s_idset));
-                                     (str "maximal_unqualified_sets", (false, SList s_idset)) ])
+  | TThreshold => STagged 5053 (SStruct [ (k_threshold, (false, SId)); (k_shareholders, (false, s_idset)) ])
+  | TUnanimity => STagged 5054 (SStruct [ (k_shareholders, (false, s_idset)) ])
+  | TCnf => STagged 5051 (SStruct [ (k_shareholders, (false, s_idset));
+                                     (k_maximal_unqualified_sets, (false, SList s_idset)) ])
   | THierarchical =>
-      STagged 5052 (SStruct [ (str "levels",
-        (false, SList (SStruct [ (str "threshold", (false, SInt)); (str "parties", (false, SList SId)) ]))) ])
-  | TBoolexpr => STagged 5050 (SStruct [ (str "root", (false, SNode)); (str "shareholders", (false, s_idset)) ])
+      STagged 5052 (SStruct [ (k_levels,
+        (false, SList (SStruct [ (k_threshold, (false, SInt)); (k_parties, (false, SList SId)) ]))) ])
+  | TBoolexpr => STagged 5050 (SStruct [ (k_root, (false, SNode)); (k_shareholders, (false, s_idset)) ])
   | TMsp _ => s_msp
   | TKwShare _ => s_share s_scalar
   | TLifted _ => s_share s_point
   | TFeldmanVV _ => s_vv
   | TBasePublic _ => s_basepublic
-  | TBaseShard _ _ => SStruct [ (str "share", (false, s_share s_scalar)); (str "publicMaterial", (false, s_basepublic)) ]
-  | TEcdsaSig _ => SStruct [ (str "r", (false, s_scalar)); (str "s", (false, s_scalar)); (str "v", (false, SNullOr SInt)) ]
+  | TBaseShard _ _ => SStruct [ (k_share, (false, s_share s_scalar)); (k_publicMaterial, (false, s_basepublic)) ]
+  | TEcdsaSig _ => SStruct [ (k_r, (false, s_scalar)); (k_s, (false, s_scalar)); (k_v, (false, SNullOr SInt)) ]
   | TMatrix _ => s_matrix s_scalar
   | TSqMatrix _ => s_sqmatrix s_scalar
   | TMvMatrix _ => s_matrix s_point
-  | TNat => SStruct [ (str "nat", (false, s_natbytes "natBytes")) ]
-  | TInt => SStruct [ (str "int", (false, s_natbytes "intBytes")) ]
-  | TNatPlus => SStruct [ (str "natPlus", (false, s_natbytes "natBytes")) ]
+  | TNat => SStruct [ (k_nat, (false, s_natbytes k_natBytes)) ]
+  | TInt => SStruct [ (k_int, (false, s_natbytes k_intBytes)) ]
+  | TNatPlus => SStruct [ (k_natPlus, (false, s_natbytes k_natBytes)) ]
   | TScalar _ => s_scalar
   | TPoint _ => s_point
   | TGeneric => SAny
